@@ -119,7 +119,9 @@ def run_pair(c):
             for i, m1 in enumerate(alpha):
                 for j, m2 in enumerate(alpha):
                     Sm[i, j] = S[m1, m2]
-            psub = numpy.exp(Sm)
+            # _align_pairwise emits the column (x in s1, y in s2) with psub[y, x]: these tables are built HERE (not by
+            # classic_align_pairwise), so they are built for the documented reading Sd[x, y]
+            psub = numpy.exp(Sm).T
             mprobs = numpy.ones(len(psub), float) / len(psub)
             if opts.get("order") == "MXY":
                 inf = numpy.inf
@@ -216,7 +218,9 @@ def _run_ref_body(c, m, app, seqs):
         if n == ref_name:
             continue
         other = m["cogent3"].make_seq(s, name=n, moltype="dna")
-        aln = m["al"].global_pairwise(refseq, other, S, c.get("d") or 20, c.get("e") or 2).to_dict()
+        d_cfg = 20 if c.get("d") is None else c["d"]
+        e_cfg = 2 if c.get("e") is None else c["e"]
+        aln = m["al"].global_pairwise(refseq, other, S, d_cfg, e_cfg).to_dict()
         pairs[n] = [aln[ref_name], aln[n]]
     return {"rows": d, "ref": ref_name, "pairs": pairs}
 
